@@ -16,6 +16,8 @@ H.append({"name":"H_bowl","tiers":Q,"scale":"w4","bounds":"W=4,T=1 through the o
   "param_sets":[{"nold":a,"nnew":b,"chunk":c,"resume":r} for a in (3,6,9) for b in (3,6,9) for (c,r) in ((3,0),(3,1),(3,2),(2,2))]})
 H.append({"name":"H_bowl","tiers":Q,"scale":"w4","bounds":"the same with a 96-byte concrete old file and 5..6 symbolic new bytes after the resume point (equal to any stretch of the old file if the solver wants)",
   "param_sets":[{"nold":96,"nnew":n,"chunk":3,"resume":1,"long":1} for n in (8,9)]+[{"nold":96,"nnew":9,"chunk":2,"resume":2,"long":1}]})
+H.append({"name":"H_overlay","tiers":Q,"max_steps":2000000000,"bounds":"REGIME R (no constant scaled: 128 KiB window, 8 KiB threshold): old 300000 bytes concrete; new = old cut to 250000 / extended to 310000 with a 3000-byte fresh stretch at 1000 or inside the second window, and two symbolic bytes 8192 bytes after it; single write and 100000-byte writes with flush and resume",
+  "param_sets":[{"nold":300000,"nnew":n,"chunk":c,"flush":f,"resume":r,"real":at} for n in (250000,310000) for at in (1000,131072+500) for (c,f,r) in ((0,0,0),(100000,1,1))]})
 H.append({"name":"H_overlay","tiers":T,"scale":"w4","bounds":"W=4,T=1: every old,new in 0..2W+3, chunk in {1,2,3,5,all}, flush in {0,1,2}, resume in {0,1,2}","max_seconds":1200,
   "param_sets":grid(range(0,12),range(0,12),[(c,f,r) for c in (0,1,2,3,5) for f in (0,1,2) for r in (0,1,2) if not (f==0 and r>0)])})
 H.append({"name":"H_overlay","tiers":T,"scale":"w6","bounds":"W=6,T=1: old,new 0..W+3, chunk in {1,4,7,all}","max_seconds":1200,
